@@ -126,6 +126,11 @@ KERNELS = [
     K("c10::k_offset_round", pre=lambda a: And(in_range(a[0], -OFF_MAX, OFF_MAX), in_range(a[1], 0, NP - 1), in_range(a[2], 0, 8)),
       claims=[("Offset::round == exact rounding of the offset seconds; Err iff out of range or sub-second unit", off_claim)],
       bounds={0: (-OFF_MAX, OFF_MAX), 1: (0, NP - 1), 2: (0, 8)}, split=(1, NP)),
+    K("c10::k_sd_round_inc", pre=lambda a: And(a[1] > -NS, a[1] < NS, Not(And(a[0] > 0, a[1] < 0)), Not(And(a[0] < 0, a[1] > 0)), in_range(a[3], 0, 8),
+                                            in_range(a[0], -1000000, 1000000), in_range(a[2], -1000, 1000)),
+      claims=[("SignedDuration::round with an arbitrary increment never panics; a non-positive increment is rejected",
+               lambda a, o: And(o.is_some, Implies(a[2] <= 0, o.some.is_none)))],
+      bounds={0: (-1000000, 1000000), 1: (-999999999, 999999999), 2: (-1000, 1000), 3: (0, 8)}),
     K("c10::k_time_round_inc", pre=lambda a: And(ref_valid_time(a[0], a[1], a[2], a[3]), in_range(a[5], 0, 8)),
       claims=[("increments that do not evenly divide the next larger unit (or are not below it, or are not positive) are rejected",
                lambda a, o: And(o.is_some,
